@@ -413,7 +413,7 @@ func TestC09(t *testing.T) {
 	hx.Check[c09Case]{
 		Property: "C09", Part: "inspections",
 		Rule:  "accepting generated chains whose final-product directory is edited (file added/removed/modified/CRLF-converted, with and without line normalisation) x 0-3 inspections with scripted commands (log only, create, modify, delete, exit 1..255, missing executable, empty command, directory as command) x inspection rule lists (MATCH against the last step, REQUIRE/CREATE/MODIFY/DELETE/ALLOW/DISALLOW), both entry points, optionally a failing step rule; accept iff all commands start and exit 0 and the reference rule interpreter accepts every inspection on the modelled directory; execution log = layout order (complete, or the prefix up to the failing command; empty when a step fails); non-trivial = edited directory, a non-trivial command or an expected rejection; distinct by case JSON",
-		Cases: hx.Pick(600, 10000),
+		Cases: hx.Pick(600, 80000),
 		Gen:   c09Gen, Run: c09Run,
 	}.Execute(t)
 }
